@@ -131,6 +131,78 @@ def check(pid, tier, seed, n_cases=None, workers=None, budget_s=None):
     return finish(pid, tier, seed, mod, results, harness_errors, wall)
 
 
+def generic_minimise(mod, pid, rep, budget_s=45.0, max_runs=60):
+    """Shrink a failing case while the same rule keeps firing: (1) operator
+    commands / stops / crash points the driver resolved are dropped one at a
+    time, (2) recorded fault and scheduling choices are reset to the benign
+    value 0 in halving blocks (delta debugging on the non-zero positions).
+    The program itself is not shrunk (it is small by construction)."""
+    from . import boot
+    t0 = boot._real_time()
+    rule = rep['rule']
+    runs = [0]
+
+    def fires(params, choices):
+        if runs[0] >= max_runs or boot._real_time() - t0 > budget_s:
+            return None
+        runs[0] += 1
+        p = dict(params)
+        if choices is not None:
+            p['choices'] = list(choices)
+        try:
+            r = mod.run(p)
+        except Exception:
+            return False
+        if r.get('error'):
+            return False
+        for v in r.get('violations', []):
+            if v.get('property', pid) == pid and v['rule'] == rule:
+                return v
+        return False
+
+    params = dict(rep['params'])
+    choices = rep.get('choices')
+    if choices is None:
+        return rep
+    v0 = fires(params, choices)
+    if not v0:
+        rep['minimised'] = {'reproduced_before_shrinking': bool(v0)}
+        return rep
+    # the effective choice list of the replayed run
+    choices = list(v0.get('choices') or choices)
+    n0 = sum(1 for c in choices if c)
+    nz = [i for i, c in enumerate(choices) if c]
+    block = max(1, len(nz) // 2)
+    while block >= 1 and nz:
+        i = 0
+        progressed = False
+        while i < len(nz):
+            cand = list(choices)
+            for j in nz[i:i + block]:
+                cand[j] = 0
+            v = fires(params, cand)
+            if v is None:
+                block = 0
+                break
+            if v:
+                choices = list(v.get('choices') or cand)
+                nz = [k for k, c in enumerate(choices) if c]
+                progressed = True
+                v0 = v
+            else:
+                i += block
+        if block <= 1 and not progressed:
+            break
+        block = block // 2 if block > 1 else (1 if progressed else 0)
+    rep['choices'] = choices
+    rep['detail'] = v0.get('detail', rep.get('detail'))
+    rep['trace'] = v0.get('trace', rep.get('trace'))
+    rep['minimised'] = {'nonzero_choices_before': n0,
+                        'nonzero_choices_after': sum(1 for c in choices if c),
+                        'reruns': runs[0]}
+    return rep
+
+
 def finish(pid, tier, seed, mod, results, harness_errors, wall):
     known = load_known()
     viols = []
@@ -200,6 +272,8 @@ def finish(pid, tier, seed, mod, results, harness_errors, wall):
         try:
             if hasattr(mod, 'minimise'):
                 rep = mod.minimise(rep) or rep
+            elif len(lines) < 3 and os.environ.get('VERIF_MINIMISE', '1') != '0':
+                rep = generic_minimise(mod, pid, rep)
         except Exception as exc:   # minimiser trouble must not hide the bug
             rep['minimise_error'] = repr(exc)
         with open(path, 'w') as fh:
